@@ -367,7 +367,8 @@ Definition c11_retrievable (fs : list (Z * bytes)) (extra_h extra_t : list Z) (o
 
 (* C11 on a generated field list: 0 = as the property says (or the list is not wire_ok, nothing claimed);
    1 well-formed message rejected, 2 raw bytes changed, 3 field order / content differs, 4 a field is not retrievable
-   from its section with its wire value.  With an application dictionary (ad_tags = every tag it mentions) body fields
+   from its section with its wire value, 8 a section exposes a tag that is not on the wire ("exposes exactly what is on the
+   wire": nothing left over from an earlier use of the Message object).  With an application dictionary (ad_tags = every tag it mentions) body fields
    and the tags it mentions may be gathered into repeating groups, so only the other header / trailer fields are
    looked up then. *)
 Definition c11_check_fields (fs : list (Z * bytes)) (extra_h extra_t : list Z) (ad_tags : option (list Z)) (obs : option c11_obs) : Z :=
@@ -378,6 +379,7 @@ Definition c11_check_fields (fs : list (Z * bytes)) (extra_h extra_t : list Z) (
       if negb (beq_bytes (o_raw o) (ser fs)) then 2
       else if negb (c11_fields_match (o_fields o) fs) then 3
       else if negb (forallb (c11_retrievable fs extra_h extra_t o ad_tags) (map fst fs)) then 4
+      else if negb (forallb (fun e => fixstd_mem (fst e) (map fst fs)) (o_h o ++ o_b o ++ o_t o)) then 8
       else 0
   end.
 
